@@ -2,7 +2,8 @@
  * Trusted model of the SQLite C API as far as transaction bracketing is concerned (DESIGN 4, C05 / C06).
  * sqlite3_exec interprets exactly the six literals the library uses (begin, commit, rollback, savepoint s, release s,
  * rollback to s) on a ghost transaction state and may fail nondeterministically; prepare tags a statement as a write
- * unless its SQL starts with "select"; step returns any code and counts a stepped write; everything else is
+ * unless its SQL starts with "select"; step returns any code and counts a stepped write; savepoints form a stack of write marks;
+ * everything else is
  * nondeterministic within its type.  ASSUMPTION (listed in the evidence): a rolled-back transaction or savepoint is
  * invisible, a committed one (or a write stepped in autocommit mode) is durable.
  */
@@ -10,47 +11,67 @@
 #define VERIF_SQLITE_MODEL_H
 #include <sqlite3.h>
 int nondet_int(void);
-struct sqlite3_stmt { int is_write; int finalized; };
+/* statements are opaque to the library: the model hands out one of two static objects (read / write), nothing is allocated or freed */
+struct sqlite3_stmt { int is_write; };
+static struct sqlite3_stmt g_stmt_pool[2] = { { 0 }, { 1 } };
 
+#define MAXSP 4             /* modelled depth of the savepoint stack (exceeding it is an assertion failure, never silently ignored) */
 int g_tx_open;              /* a transaction is open (autocommit off) */
+int g_tx_by_sp;             /* ... and it was opened by a savepoint rather than by BEGIN (releasing the outermost savepoint commits) */
 int g_sp_depth;             /* open savepoints named s */
+unsigned g_sp_mark[MAXSP];  /* value of g_tx_writes when savepoint k was taken */
 unsigned g_tx_writes;       /* writes stepped inside the open transaction, not yet committed or rolled back */
-unsigned g_sp_writes;       /* of those, the ones stepped since the innermost open savepoint was taken */
 unsigned g_durable_writes;  /* writes made durable: committed, or stepped in autocommit mode */
 unsigned g_lost_writes;     /* writes undone by rollback / rollback to */
+int g_undo_failed;          /* SQLite refused a ROLLBACK or ROLLBACK TO (I/O failure: outside every property) */
 unsigned g_commits, g_rollbacks, g_begins, g_saves, g_releases, g_rollback_tos, g_write_steps, g_finalized;
-#define G_SQL g_tx_open, g_sp_depth, g_tx_writes, g_sp_writes, g_durable_writes, g_lost_writes, g_commits, g_rollbacks, g_begins, g_saves, g_releases, g_rollback_tos, g_write_steps, g_finalized
+#define G_SQL g_tx_open, g_tx_by_sp, g_sp_depth, __CPROVER_object_whole(g_sp_mark), g_tx_writes, g_durable_writes, g_lost_writes, g_undo_failed, g_commits, g_rollbacks, g_begins, g_saves, g_releases, g_rollback_tos, g_write_steps, g_finalized
+/* well-formed model state */
+#define SQL_WF (g_sp_depth >= 0 && g_sp_depth <= MAXSP && (g_tx_open || g_sp_depth == 0) && (g_tx_open || g_tx_writes == 0) \
+    && (g_sp_depth < 1 || g_sp_mark[0] <= g_tx_writes) && (g_sp_depth < 2 || (g_sp_mark[0] <= g_sp_mark[1] && g_sp_mark[1] <= g_tx_writes)) \
+    && (g_sp_depth < 3 || (g_sp_mark[1] <= g_sp_mark[2] && g_sp_mark[2] <= g_tx_writes)) && (g_sp_depth < 4 || (g_sp_mark[2] <= g_sp_mark[3] && g_sp_mark[3] <= g_tx_writes)))
 
+static void sql_end_tx(int durable) {
+    if (durable) g_durable_writes += g_tx_writes; else g_lost_writes += g_tx_writes;
+    g_tx_writes = 0; g_sp_depth = 0; g_tx_open = 0; g_tx_by_sp = 0;
+}
 int sqlite3_exec(sqlite3 *db, const char *sql, int (*cb)(void *, int, char **, char **), void *arg, char **errmsg) {
     int fail = nondet_int();
     /* begin | commit | rollback | rollback to s | savepoint s | release s */
-    if (sql[0] == 'b') { g_begins++; if (fail || g_tx_open) return SQLITE_ERROR; g_tx_open = 1; g_tx_writes = 0; g_sp_writes = 0; g_sp_depth = 0; return SQLITE_OK; }
-    if (sql[0] == 'c') { g_commits++; if (fail || !g_tx_open) return SQLITE_ERROR; g_durable_writes += g_tx_writes; g_tx_writes = 0; g_sp_writes = 0; g_sp_depth = 0; g_tx_open = 0; return SQLITE_OK; }
-    if (sql[0] == 's') { g_saves++; if (fail) return SQLITE_ERROR; g_tx_open = 1; g_sp_depth++; g_sp_writes = 0; return SQLITE_OK; }
-    if (sql[0] == 'r' && sql[1] == 'e') { g_releases++; if (fail || g_sp_depth <= 0) return SQLITE_ERROR; g_sp_depth--; return SQLITE_OK; }
-    if (sql[0] == 'r' && sql[8] == 0) { g_rollbacks++; if (fail || !g_tx_open) return SQLITE_ERROR; g_lost_writes += g_tx_writes; g_tx_writes = 0; g_sp_writes = 0; g_sp_depth = 0; g_tx_open = 0; return SQLITE_OK; }
-    if (sql[0] == 'r') { g_rollback_tos++; if (fail || g_sp_depth <= 0) return SQLITE_ERROR; g_lost_writes += g_sp_writes; g_tx_writes -= g_sp_writes; g_sp_writes = 0; return SQLITE_OK; }
+    if (sql[0] == 'b') { g_begins++; if (fail || g_tx_open) return SQLITE_ERROR; g_tx_open = 1; g_tx_by_sp = 0; g_tx_writes = 0; g_sp_depth = 0; return SQLITE_OK; }
+    if (sql[0] == 'c') { g_commits++; if (fail || !g_tx_open) return SQLITE_ERROR; sql_end_tx(1); return SQLITE_OK; }
+    if (sql[0] == 's') {
+        g_saves++; if (fail) return SQLITE_ERROR;
+        __CPROVER_assert(g_sp_depth < MAXSP, "sqlite model: savepoint stack deeper than MAXSP");
+        __CPROVER_assume(g_sp_depth < MAXSP);
+        if (!g_tx_open) { g_tx_open = 1; g_tx_by_sp = 1; g_tx_writes = 0; g_sp_depth = 0; }
+        g_sp_mark[g_sp_depth] = g_tx_writes; g_sp_depth++; return SQLITE_OK;
+    }
+    if (sql[0] == 'r' && sql[1] == 'e') { g_releases++; if (fail || g_sp_depth <= 0) return SQLITE_ERROR; g_sp_depth--; if (g_sp_depth == 0 && g_tx_by_sp) sql_end_tx(1); return SQLITE_OK; }
+    if (sql[0] == 'r' && sql[8] == 0) { g_rollbacks++; if (!g_tx_open) return SQLITE_ERROR; if (fail) { g_undo_failed = 1; return SQLITE_ERROR; } sql_end_tx(0); return SQLITE_OK; }
+    if (sql[0] == 'r') {
+        g_rollback_tos++; if (g_sp_depth <= 0) return SQLITE_ERROR; if (fail) { g_undo_failed = 1; return SQLITE_ERROR; }
+        g_lost_writes += g_tx_writes - g_sp_mark[g_sp_depth - 1]; g_tx_writes = g_sp_mark[g_sp_depth - 1]; return SQLITE_OK;
+    }
     return nondet_int();
 }
 int sqlite3_get_autocommit(sqlite3 *db) { return !g_tx_open; }
 int sqlite3_prepare_v2(sqlite3 *db, const char *sql, int n, sqlite3_stmt **stmt, const char **tail) {
     if (nondet_int()) { *stmt = NULL; return SQLITE_ERROR; }
-    struct sqlite3_stmt *s = malloc(sizeof *s);
-    if (!s) { *stmt = NULL; return SQLITE_NOMEM; }
-    s->is_write = !((sql[0] == 's' || sql[0] == 'S') && (sql[1] == 'e' || sql[1] == 'E')); s->finalized = 0;
-    *stmt = s; return SQLITE_OK;
+    *stmt = &g_stmt_pool[!((sql[0] == 's' || sql[0] == 'S') && (sql[1] == 'e' || sql[1] == 'E'))];
+    return SQLITE_OK;
 }
 int sqlite3_step(sqlite3_stmt *s) {
     int rc = nondet_int();
     if (s != NULL && s->is_write && (rc == SQLITE_DONE || rc == SQLITE_ROW)) {
         g_write_steps++;
-        if (g_tx_open) { g_tx_writes++; g_sp_writes++; } else g_durable_writes++;
+        if (g_tx_open) g_tx_writes++; else g_durable_writes++;
     }
     return rc;
 }
 int sqlite3_reset(sqlite3_stmt *s) { return nondet_int(); }
 int sqlite3_clear_bindings(sqlite3_stmt *s) { return nondet_int(); }
-int sqlite3_finalize(sqlite3_stmt *s) { if (s != NULL) { g_finalized++; free(s); } return nondet_int(); }
+int sqlite3_finalize(sqlite3_stmt *s) { if (s != NULL) g_finalized++; return nondet_int(); }
 int sqlite3_bind_int(sqlite3_stmt *s, int i, int v) { return nondet_int(); }
 int sqlite3_bind_int64(sqlite3_stmt *s, int i, sqlite3_int64 v) { return nondet_int(); }
 int sqlite3_bind_text16(sqlite3_stmt *s, int i, const void *t, int n, void (*d)(void *)) { return nondet_int(); }
